@@ -238,7 +238,12 @@ Proof.
   destruct (b =? -1) eqn:B1.
   { assert (b = -1) as -> by lia. replace (a mod -1) with 0 by (apply Z.mod_unique with (q := - a); lia).
     ity_cases t Ht; try discriminate Hs; clear Hs. all: csolve. all: cfinish. }
-  rewrite (mod_from_rem a b) by lia.
+  pose proof (mod_from_rem a b ltac:(lia)) as M.
+  assert (Hm : in_rangeb t (a mod b) = true).
+  { clear M Hx. ity_cases t Ht; try discriminate Hs; unfold I8, I16, I32, I64 in *; expose_ranges; lia. }
+  assert (Hrb : negb (Z.rem a b =? 0) && (Z.lxor a b <? 0) = true -> in_rangeb t (Z.rem a b + b) = true).
+  { intros C. rewrite M, C in Hm. exact Hm. }
+  rewrite M. clear M Hm.
   pose proof (rem_bounds a b ltac:(lia)) as [R1 R2].
   ity_cases t Ht; try discriminate Hs; clear Hs.
   - assert (in_rangeb I8 (Z.rem a b) = true) by range_facts I8.
@@ -253,4 +258,179 @@ Proof.
     csolve. all: cfinish.
   - assert (in_rangeb I64 (Z.rem a b) = true) by range_facts I64.
     csolve. all: cfinish.
+Qed.
+
+(* ================================================================ the needs-check decision *)
+
+Lemma no_check_sound d s : wf_ity d -> wf_ity s ->
+  (needs_check d s = false <-> forall x, in_range s x -> in_range d x).
+Proof.
+  intros Hd Hs. unfold needs_check, type_inrange. split.
+  - intros H x Hx. apply negb_false_iff in H. apply andb_prop in H. destruct H as [H1 H2].
+    apply in_rangeb_spec in H1, H2. unfold in_range in *. lia.
+  - intros H. apply negb_false_iff. apply andb_true_intro. split; apply in_rangeb_spec; apply H.
+    + pose proof (tmin_le_tmax s Hs). unfold in_range. lia.
+    + pose proof (tmin_le_tmax s Hs). unfold in_range. lia.
+Qed.
+
+(* implicit conversion in a checked build: exact *)
+Lemma implicit_conv_correct m s d x : wf_ity s -> wf_ity d -> in_range s x ->
+  implicit_conv m s d x = if in_rangeb d x then Oval x else Opanic MSG_NARROW.
+Proof.
+  intros Hs Hd Hx. unfold implicit_conv. destruct (needs_check d s) eqn:N.
+  - destruct (narrow_fn_defined s d Hs Hd N) as [f Hf]. rewrite Hf.
+    apply narrow_fn_correct with (s := s); assumption.
+  - pose proof (proj1 (no_check_sound d s Hd Hs) N x Hx) as Hdx.
+    unfold c_cast. rewrite c_conv_inrange by assumption.
+    apply in_rangeb_spec in Hdx. rewrite Hdx. reflexivity.
+Qed.
+
+(* explicit casts never trap and wrap (gcc/clang semantics) *)
+Lemma cast_wraps d x : wf_ity d -> explicit_cast Gnu d x = Oval (wrap d x).
+Proof. intros Hd. unfold explicit_cast, c_cast. rewrite c_conv_gnu by exact Hd. reflexivity. Qed.
+
+(* under ISO C alone the cast is defined only towards unsigned types or for representable values *)
+Lemma cast_iso d x : wf_ity d ->
+  explicit_cast Wrapv d x = if negb (sgn d) || in_rangeb d x then Oval (wrap d x) else Oub.
+Proof.
+  intros Hd. unfold explicit_cast, c_cast, c_conv. destruct (sgn d) eqn:S; cbn [is_gnu negb orb].
+  - destruct (in_rangeb d x) eqn:R; [|reflexivity].
+    apply in_rangeb_spec in R. rewrite wrap_id by assumption. reflexivity.
+  - rewrite wrap_unsigned by exact S. reflexivity.
+Qed.
+
+(* ================================================================ conversion sites *)
+
+Definition all_sites : list site :=
+  [SArg; SDecl; SAssign; SRet1; SRet2; SRetDefer; SArrInit; SRecInit; SRecArrInit; SFor; SCast].
+
+Lemma all_sites_complete st : In st all_sites.
+Proof. destruct st; cbn; tauto. Qed.
+
+(* full strength: every implicit conversion site is checked *)
+Definition all_implicit_sites_checked : Prop :=
+  forall st, site_implicit st = true -> site_checked st = true.
+
+Lemma sites_refuted : ~ all_implicit_sites_checked.
+Proof. intros H. specialize (H SRet1 eq_refl). vm_compute in H. discriminate. Qed.
+
+Definition unchecked_today (st : site) : bool :=
+  match st with SRet1 | SArrInit | SRecInit | SRecArrInit => true | _ => false end.
+
+Lemma sites_partial st : site_implicit st = true -> site_checked st = negb (unchecked_today st).
+Proof. destruct st; vm_compute; congruence. Qed.
+
+Lemma convert_at_correct m st s d x : wf_ity s -> wf_ity d -> in_range s x -> site_checked st = true ->
+  convert_at m st s d x = if in_rangeb d x then Oval x else Opanic MSG_NARROW.
+Proof. intros Hs Hd Hx C. unfold convert_at. rewrite C. apply implicit_conv_correct; assumption. Qed.
+
+Lemma convert_at_unchecked st s d x : wf_ity d -> site_checked st = false ->
+  convert_at Gnu st s d x = Oval (wrap d x).
+Proof. intros Hd C. unfold convert_at. rewrite C. apply cast_wraps; exact Hd. Qed.
+
+(* ================================================================ array indexing *)
+
+Lemma array_index_correct m t len i : wf_ity t -> in_range t i -> in_range USIZE len ->
+  array_index m t len i = if (0 <=? i) && (i <? len) then Oval i else Opanic MSG_BOUNDS.
+Proof. intros. unfold array_index. apply bounds_fn_correct; assumption. Qed.
+
+(* ================================================================ library guards *)
+
+(* when the accessor is allowed to proceed, in exact integers *)
+Definition lib_valid (op : libop) (pos size impl : Z) : bool :=
+  match op with
+  | SpanAt | VecAt | VecRemove => pos <? size
+  | VecInsert => pos <=? size
+  | VecPop => 0 <? size
+  | SeqAt => pos <=? size + 1
+  | SeqInsert => (0 <? pos) && (pos <=? size + 1)
+  | SeqRemove => negb (impl =? 0) && (0 <? pos) && (pos <=? size)
+  | SeqPop => negb (impl =? 0) && (0 <? size)
+  | StrAt => (1 <=? pos) && (pos <=? size)
+  end.
+
+Lemma lib_passes_correct m op pos size impl :
+  in_range USIZE pos -> in_range USIZE size -> in_range U64 impl -> size + 1 <= tmax USIZE ->
+  lib_passes m op pos size impl = Some (lib_valid op pos size impl).
+Proof.
+  intros Hp Hs Hi Hs1. apply in_rangeb_spec in Hp, Hs, Hi.
+  unfold USIZE, USIZE_BITS in *.
+  destruct op; destruct m.
+  all: csolve.
+  all: cfinish.
+Qed.
+
+Lemma site_arg_checked : site_checked SArg = true.
+Proof. vm_compute. reflexivity. Qed.
+
+(* an accessor called with an index i of any integer type: stopped with "narrow casting ..."
+   when i is negative, with the library message when the position is invalid, and let through
+   otherwise *)
+Lemma lib_access_correct m op idx i size impl :
+  wf_ity idx -> in_range idx i -> in_range USIZE size -> in_range U64 impl -> size + 1 <= tmax USIZE ->
+  lib_access m op idx i size impl =
+    if i <? 0 then Opanic MSG_NARROW
+    else if lib_valid op i size impl then Oval 0 else Opanic MSG_LIB.
+Proof.
+  intros Hw Hi Hs Him Hs1. unfold lib_access.
+  assert (Hu : wf_ity USIZE) by reflexivity.
+  rewrite (convert_at_correct m SArg idx USIZE i Hw Hu Hi site_arg_checked).
+  assert (R : in_rangeb USIZE i = negb (i <? 0)).
+  { unfold USIZE, USIZE_BITS. revert Hi. ity_cases idx Hw; ity_norm; lia. }
+  rewrite R. destruct (i <? 0) eqn:N; cbn [negb]; [reflexivity|].
+  rewrite lib_passes_correct; try assumption.
+  - destruct (lib_valid op i size impl); reflexivity.
+  - apply in_rangeb_spec. rewrite R, N. reflexivity.
+Qed.
+
+(* ---------------------------------------------------------------- non-vacuity examples *)
+Example ex_narrow_fires : ccall Gnu (mkcfun [I64] U8 (Sseq (Sif (Elor (Ebin Olt (Evar 0) (Elit I32 0)) (Ebin Ogt (Evar 0) (Elit I32 255))) (Spanic 2) Sskip) (Sret (Ecast U8 (Evar 0))))) [300] = Opanic 2.
+Proof. reflexivity. Qed.
+Example ex_narrow_fn : narrow_fn I64 U8 = Some (mkcfun [I64] U8 (Sseq (Sif (Elor (Ebin Olt (Evar 0) (Elit I32 0)) (Ebin Ogt (Evar 0) (Elit I32 255))) (Spanic 2) Sskip) (Sret (Ecast U8 (Evar 0))))).
+Proof. reflexivity. Qed.
+Example ex_narrow_passes : implicit_conv Gnu I64 U8 255 = Oval 255. Proof. reflexivity. Qed.
+Example ex_needs : needs_check U8 I64 = true /\ needs_check I64 U8 = false /\ needs_check I64 U64 = true.
+Proof. repeat split. Qed.
+Example ex_bounds : array_index Gnu I8 5 (-1) = Opanic MSG_BOUNDS /\ array_index Gnu I8 5 4 = Oval 4.
+Proof. split; reflexivity. Qed.
+Example ex_idiv : run_idiv I8 (-128) (-1) = Oval (-128) /\ run_idiv I8 7 0 = Opanic MSG_DIVZERO /\ run_idiv I8 (-7) 2 = Oval (-4).
+Proof. repeat split. Qed.
+Example ex_imod : run_imod I64 (-7) 2 = Oval 1 /\ run_imod I64 7 (-2) = Oval (-1).
+Proof. repeat split. Qed.
+Example ex_lib : lib_access Gnu SeqRemove I8 0 5 1 = Opanic MSG_LIB /\ lib_access Gnu VecAt I8 (-1) 5 1 = Opanic MSG_NARROW
+  /\ lib_access Gnu SeqAt U8 6 5 1 = Oval 0.
+Proof. repeat split. Qed.
+Example ex_sites : site_checked SRet1 = false /\ site_checked SRetDefer = true /\ site_checked SArrInit = false.
+Proof. repeat split. Qed.
+
+(* ---------------------------------------------------------------- the tie, as one statement *)
+Lemma helpers_tie :
+  (forall s d f, In (s, d, f) narrow_table -> narrow_fn s d = Some f /\ cfun_ok f = true) /\
+  (forall t f, In (t, f) bounds_table -> Some (bounds_fn t) = Some f /\ cfun_ok f = true) /\
+  (forall t f, In (t, f) idiv_table -> Some (idiv_fn t true) = Some f /\ cfun_ok f = true) /\
+  (forall t f, In (t, f) imod_table -> Some (imod_fn t true) = Some f /\ cfun_ok f = true) /\
+  deref_fn = deref_emitted /\
+  (forall d s b, In (d, s, b) inrange_table -> needs_check d s = negb b) /\
+  conv_sites = expected_sites /\
+  (guard_span_at = lib_guard SpanAt /\ guard_vector_at = lib_guard VecAt /\
+   guard_vector_insert = lib_guard VecInsert /\ guard_vector_remove = lib_guard VecRemove /\
+   guard_vector_pop = lib_guard VecPop /\ guard_sequence_at = lib_guard SeqAt /\
+   guard_sequence_insert = lib_guard SeqInsert /\ guard_sequence_remove = lib_guard SeqRemove /\
+   guard_sequence_pop = lib_guard SeqPop /\ guard_string_at = lib_guard StrAt /\
+   Some guard_sequence_at_pre = lib_pre SeqAt).
+Proof.
+  split; [|split; [|split; [|split; [|split; [|split; [|split]]]]]].
+  - intros s d f H. exact (table_matches_spec (fun '(s, d) => narrow_fn s d) narrow_table narrow_table_ok (s, d) f H).
+  - intros t f H. exact (table_matches_spec _ _ bounds_table_ok t f H).
+  - intros t f H. exact (table_matches_spec _ _ idiv_table_ok t f H).
+  - intros t f H. exact (table_matches_spec _ _ imod_table_ok t f H).
+  - pose proof deref_ok as H. apply andb_prop in H. destruct H as [H _]. apply cfun_eqb_eq. exact H.
+  - intros d s b H. pose proof inrange_table_ok as T. rewrite forallb_forall in T. specialize (T _ H). cbn in T.
+    apply andb_prop in T. destruct T as [T _]. apply andb_prop in T. destruct T as [T _].
+    apply Bool.eqb_prop in T. unfold needs_check. rewrite T. reflexivity.
+  - exact conv_sites_ok.
+  - pose proof guards_ok as G.
+    repeat (apply andb_prop in G; let H := fresh "G" in destruct G as [G H]).
+    repeat split; try (apply cexpr_eqb_eq; assumption).
+    cbn [lib_pre] in *. f_equal. apply cexpr_eqb_eq. assumption.
 Qed.
